@@ -343,6 +343,71 @@ def repeated_mass(run, r, n_runs, coq=True):
                        'calls': [[mx, mask[:5]] for mx, mask in calls], 'train_losses': st[:12], 'observed_first_call': real[0][:3] if real else []})
 
 
+def shared_across_solvers(run, r, n_runs):
+    """ONE condition object (a repeated-metric leaf, alone or under a Boolean operator) attached to TWO solvers whose
+    fit() calls are interleaved (a.fit(1); b.fit(1); ...), with different scripted loss histories: on each solver the
+    action fires exactly when the documented history predicate holds for THAT solver's history -- a verdict must not
+    leak from one solver to the other through state kept on the shared callback object.  Oracle only (the Coq model
+    evaluates a predicate on the history it is given, so this is the statement 'the implementation is a function of
+    the solver it is called with')."""
+    ck, CB = run.ck, run.CB
+    for ri in range(n_runs):
+        leaf = rep_leaf(r, {}, kinds=('Up', 'Down', 'Converge', 'Diverge', 'Below', 'Above'))
+        leaf = leaf[:5] + ('loss',)
+        tree = leaf if ri % 3 else r.choice([('Or', [('F',), leaf]), ('And', [('T',), leaf]), ('Not', ('Not', leaf))])
+        try:
+            tree_txt = T.show(tree)
+        except Exception:
+            tree, tree_txt = leaf, T.show(leaf)
+        n_ep = r.randint(4, 9)
+        hi = r.choice([2, 3, 5])
+        scripts_ = {x: ([r.randint(0, hi) for _ in range(n_ep + 1)], [r.randint(0, hi) for _ in range(n_ep + 1)]) for x in 'ab'}
+        if ri % 2 == 0:       # one solver strictly improving, the other strictly worsening: the verdicts differ almost always
+            scripts_['a'] = (list(range(n_ep + 1, 0, -1)), list(range(n_ep + 1, 0, -1)))
+            scripts_['b'] = (list(range(1, n_ep + 2)), list(range(1, n_ep + 2)))
+        fired = {'a': [], 'b': []}
+        solvers, holders = {}, {}
+        for x in 'ab':
+            holders[x] = {}
+            solvers[x] = run.ctx.solver(valid_on=True)
+            holders[x]['s'] = solvers[x]
+            solvers[x]._set_loss_fn(E.scripted_loss(holders[x], *scripts_[x]))
+        cur = []
+
+        class Rec(CB.ActionCallback):
+            def __call__(self, s):
+                cur.append('a' if s is solvers['a'] else 'b')
+        cond = T.build(CB, tree, None)
+        cb = Rec().conditioned_on(cond)
+        inp = {'scenario': 'one condition object on two solvers, fits interleaved a, b, a, b, ...', 'condition': tree_txt,
+               'losses_a': [list(v) for v in scripts_['a']], 'losses_b': [list(v) for v in scripts_['b']], 'epochs_each': n_ep}
+        err = None
+        try:
+            for e in range(n_ep):
+                for x in 'ab':
+                    del cur[:]
+                    solvers[x].fit(max_epochs=1, callbacks=[cb])
+                    fired[x].append(bool(cur))
+                    if cur and any(c != x for c in cur):
+                        err = f'the action ran with the other solver as argument at epoch {e + 1} of solver {x}'
+        except Exception as ex:
+            err = f'{type(ex).__name__}: {ex}'
+        ck.add_case(('shared-across-solvers', tree_txt, json.dumps(inp['losses_a']), json.dumps(inp['losses_b'])), nontrivial=True)
+        run.count('shared_across_solvers')
+        if err:
+            ck.fail('shared-across-solvers/raises', err, inp)
+            continue
+        for x in 'ab':
+            st, sv = scripts_[x]
+            exp = [bool(T.doc(tree, 1, e + 1, 1, st[:e + 1], sv[:e + 1])) for e in range(n_ep)]
+            if exp != fired[x]:
+                e0 = [i for i in range(n_ep) if exp[i] != fired[x][i]][0]
+                ck.fail(f'fires/{T.class_name(leaf)}/shared-across-solvers',
+                        f'{tree_txt} attached to two solvers (fits interleaved): on solver {x} at its epoch {e0 + 1} fired={fired[x][e0]} but the '
+                        f'documented predicate on THAT solver\'s history is {exp[e0]}', inp, expected={x: exp}, actual={x: fired[x]})
+                break
+
+
 REGRESS = {'late-attachment': KNOWN_LATE, 'short-circuit': KNOWN_SC, 'below-above': KNOWN_BA}
 
 
@@ -882,6 +947,7 @@ def main():
     timed('repeated', repeated_mass, run, ck.rng('repeated'), 500 if th else 60)
     timed('shared_subexpressions', dag_mass, run, ck.rng('dag'), 150 if th else 30)
     timed('regressions_repeated', regressions_repeated, run, ck.rng('known'), 60 if th else 8)
+    timed('shared_across_solvers', shared_across_solvers, run, ck.rng('two-solvers'), 120 if th else 16)
     timed('custom_metric', custom_metric_key, run)
     timed('misc', misc, run)
     timed('coq_cases', run.settle)
